@@ -73,13 +73,21 @@ func limitsBody(c *runner.Ctx) {
 		switch st.kind {
 		case "SELECT", "COUNT", "DELETE":
 			for _, disj := range st.where.dnf() {
-				bound, val := false, int64(0)
+				bound, val, contradictory := false, int64(0), false
 				for _, a := range disj {
 					if a.col == "org_id" && (a.op == "eq" || a.op == "is") {
 						if v, ok := a.vals[0].(int64); ok {
+							if bound && v != val {
+								contradictory = true
+							}
 							bound, val = true, v
 						}
 					}
+				}
+				if contradictory {
+					// org_id = x AND org_id = y: the disjunct selects nothing
+					c.Probe("disjunct-with-contradictory-org-ids")
+					continue
 				}
 				switch {
 				case !bound:
@@ -184,21 +192,31 @@ func limitsBody(c *runner.Ctx) {
 	nCalls := 2 + c.Choose(10, "calls")
 	finished := 0
 	nextID := int64(100)
+	// one *SelectOptions value kept around and passed to several queries (sqlgen
+	// writes the filter into it, so its WHERE keeps growing: later queries get
+	// fewer rows, never rows outside the limit)
+	sharedOpts := map[string]*sqlgen.SelectOptions{}
 	for i := 0; i < nCalls; i++ {
-		h := handles[c.Choose(len(handles), "call-handle")]
+		hi := c.Choose(len(handles), "call-handle")
+		h := handles[hi]
 		ci := &callInfo{idx: i, org: h.org}
 		// how the call relates to the limit
 		ci.verdict = []string{"comply", "comply", "violate", "violate", "either"}[c.Choose(5, "verdict")]
 		other := h.org%3 + 1
 		var orgVal interface{} = h.org
 		var rowOrg = h.org
-		violateHow := c.Choose(2, "violate-how")
+		violateHow := c.Choose(3, "violate-how")
 		switch ci.verdict {
 		case "violate":
-			if violateHow == 0 {
+			switch violateHow {
+			case 0:
 				orgVal = other // another shard's value
-			} else {
+			case 1:
 				orgVal = nil // no org_id in the filter at all
+			default:
+				// another shard's value as the database driver would also accept
+				// it: bytes (MySQL compares '2' with the integer column)
+				orgVal = []byte(fmt.Sprint(other))
 			}
 			rowOrg = other
 		case "either":
@@ -226,6 +244,7 @@ func limitsBody(c *runner.Ctx) {
 		id := nextID
 		existing := int64(1 + c.Choose(6, "existing-id"))
 		withWhere := c.Choose(3, "custom-where") == 1
+		shared := c.Choose(6, "shared-options")
 		delay := time.Duration(c.Choose(4, "call-delay")) * 500 * time.Microsecond
 		c.Describe("call %d: %s on handle(org=%d dyn=%v) verdict=%s batched=%v tx=%v filter=%v", i, ci.op, h.org, h.dyn, ci.verdict, ci.batched, inTx, filter)
 		go func() {
@@ -256,6 +275,23 @@ func limitsBody(c *runner.Ctx) {
 			if ci.op == "Query" && !ci.batched && withWhere {
 				// a custom WHERE with a top-level OR, ANDed with the filter
 				opts = &sqlgen.SelectOptions{Where: "name = ? OR qty = ?", Values: []interface{}{"n1", int64(4)}}
+			} else if ci.op == "Query" && !ci.batched && shared >= 1 && shared <= 4 {
+				// 1, 2: one value per handle and org_id value; 3, 4: one
+				// package-level value used for every tenant
+				key := fmt.Sprintf("%d/%v/%d", hi, orgVal, shared)
+				if shared >= 3 {
+					key = fmt.Sprint(shared)
+				}
+				if sharedOpts[key] == nil {
+					if shared%2 == 1 {
+						sharedOpts[key] = &sqlgen.SelectOptions{OrderBy: "name"}
+					} else {
+						sharedOpts[key] = &sqlgen.SelectOptions{Where: "qty = ?", Values: []interface{}{int64(4)}}
+					}
+				} else {
+					c.Probe("select-options-reused")
+				}
+				opts = sharedOpts[key]
 			}
 			switch ci.op {
 			case "Query":
